@@ -43,8 +43,26 @@ fn build_config(n: &BuildNode) -> BuildConfig {
         refs.insert(at.min(refs.len()), own);
     }
     cfg.buildpacks(refs);
-    for (k, v) in &c.env {
-        cfg.env(k.clone(), v.clone());
+    let half = c.env.len() / 2;
+    match c.env_style {
+        1 => {
+            cfg.envs(c.env.clone());
+        }
+        2 => {
+            for (k, v) in &c.env[..half] {
+                cfg.env(k.clone(), v.clone());
+            }
+            cfg.envs(c.env[half..].to_vec());
+        }
+        3 => {
+            cfg.envs(c.env[..half].to_vec());
+            cfg.envs(c.env[half..].to_vec());
+        }
+        _ => {
+            for (k, v) in &c.env {
+                cfg.env(k.clone(), v.clone());
+            }
+        }
     }
     if c.pack_fails {
         cfg.env("VERIF_PACK_FAILS", "1");
@@ -69,8 +87,26 @@ fn container_config(cfg: &simcore::e4::scenario::ContainerCfg) -> ContainerConfi
     if let Some(c) = &cfg.command {
         cc.command(c.clone());
     }
-    for (k, v) in &cfg.env {
-        cc.env(k.clone(), v.clone());
+    let half = cfg.env.len() / 2;
+    match cfg.env_style {
+        1 => {
+            cc.envs(cfg.env.clone());
+        }
+        2 => {
+            for (k, v) in &cfg.env[..half] {
+                cc.env(k.clone(), v.clone());
+            }
+            cc.envs(cfg.env[half..].to_vec());
+        }
+        3 => {
+            cc.envs(cfg.env[..half].to_vec());
+            cc.envs(cfg.env[half..].to_vec());
+        }
+        _ => {
+            for (k, v) in &cfg.env {
+                cc.env(k.clone(), v.clone());
+            }
+        }
     }
     for p in &cfg.ports {
         cc.expose_port(*p);
@@ -146,6 +182,11 @@ fn main() {
             let runner = TestRunner::default();
             let cfg = build_config(&s.root);
             runner.build(cfg, |ctx| run_steps(ctx, &s.root));
+            // further independent builds of the same test process
+            for root in &s.more_roots {
+                let cfg = build_config(root);
+                runner.build(cfg, |ctx| run_steps(ctx, root));
+            }
         })
         .expect("spawn scenario thread");
     let code = match handle.join() {
